@@ -69,7 +69,7 @@ class RefDevice(ICommInterface):
     """
 
     def __init__(self, chans, flags=3, rxpadding=0, policy=None,
-                 streaming=False, idle_sleep=0.0002, ack_delay=0.0, codec=None):
+                 streaming=False, idle_sleep=0.0002, ack_delay=0.0, codec=None, block_rx=False):
         super().__init__()
         self.chans = [dict(c) for c in chans]
         self.flags = flags
@@ -88,6 +88,11 @@ class RefDevice(ICommInterface):
         self.ack_delay = ack_delay
         self.applied = 0          # number of enable/div/start requests applied so far
         self.state_lock = threading.Lock()
+        # block_rx: a device that receives in blocks of rxpadding bytes - once it has announced its padding, a
+        # write whose length is not a multiple of it never completes a block and is lost
+        self.block_rx = block_rx
+        self.announced = False
+        self.misaligned = []
 
     # -- ICommInterface
     def start(self):
@@ -125,6 +130,9 @@ class RefDevice(ICommInterface):
 
     def _write(self, data):
         self.raw_writes.append(bytes(data))
+        if self.block_rx and self.announced and self.rxpadding > 0 and len(data) % self.rxpadding:
+            self.misaligned.append(bytes(data))
+            return
         frames, _ = self.codec.scan(data)
         for fid, payload in frames:
             self._request(fid, payload)
@@ -157,6 +165,7 @@ class RefDevice(ICommInterface):
         # "ok" or "lostack": apply
         if kind == "cmninfo":
             self.push(self.codec.wire(rc.ID_CMNINFO, [len(self.chans), self.flags, self.rxpadding]))
+            self.announced = True
             return
         if kind == "chinfo":
             c = self.chans[payload[0]]
